@@ -110,7 +110,7 @@ package hashgraph
 
 //@ iface func (s Store) RepertoireByID() map[uint32]*peers.Peer
 //@   modifies nothing
-//@   ensures[nonnil] ret0 != nil
+//@   ensures[nonnil] ret0 != nil && (forall k uint32 :: __in(k, ret0) ==> ret0[k] != nil)
 
 //@ iface func (s Store) RepertoireByPubKey() map[string]*peers.Peer
 //@   modifies nothing
@@ -296,3 +296,24 @@ package hashgraph
 //@   loop 1 invariant[kept]   forall i int, v string :: __in(i, G_blocks(h.Store)) && G_blocks(h.Store)[i] != nil && old(__in(v, G_blocks(h.Store)[i].Signatures)) ==> __in(v, G_blocks(h.Store)[i].Signatures)
 //@   loop 1 invariant[bodies] __eq(G_blocks(h.Store), old(G_blocks(h.Store))) && (forall i int :: __in(i, G_blocks(h.Store)) && G_blocks(h.Store)[i] != nil ==> __eq(G_blocks(h.Store)[i].Body, old(G_blocks(h.Store)[i].Body)) && __eq(G_blocks(h.Store)[i].Signatures, old(G_blocks(h.Store)[i].Signatures)))
 //@   loop 1 invariant[anchor] (old(h.AnchorBlock) != nil ==> h.AnchorBlock != nil && *h.AnchorBlock >= old(*h.AnchorBlock)) && (old(G_fault(h.Store)) ==> G_fault(h.Store))
+
+//@ func (we *WireEvent) BlockSignatures(validator []byte) []BlockSignature
+//@   safety on
+//@   requires we != nil
+//@   modifies nothing
+//@   ensures[nil]        we.Body.BlockSignatures == nil ==> ret0 == nil
+//@   ensures[attributed] we.Body.BlockSignatures != nil ==> ret0 != nil && len(ret0) == len(we.Body.BlockSignatures) && (forall k int :: 0 <= k && k < len(ret0) ==> __seqeq(ret0[k].Validator, validator) && ret0[k].Index == we.Body.BlockSignatures[k].Index && ret0[k].Signature == we.Body.BlockSignatures[k].Signature)
+//@   loop 1 invariant[part] len(blockSignatures) == len(we.Body.BlockSignatures) && !(blockSignatures == nil) && (forall j int :: 0 <= j && j < k ==> __seqeq(blockSignatures[j].Validator, validator) && blockSignatures[j].Index == we.Body.BlockSignatures[j].Index && blockSignatures[j].Signature == we.Body.BlockSignatures[j].Signature)
+
+//@ iface func (s Store) ParticipantEvent(participant string, index int) (string, error)
+//@   modifies nothing
+//@   ensures[hit] ret1 == nil ==> __in(ret0, G_events(s)) && G_events(s)[ret0] != nil && CreatorOf(G_events(s)[ret0]) == participant && G_events(s)[ret0].Body.Index == index
+
+//@ func (h *Hashgraph) ReadWireInfo(wevent WireEvent) (*Event, error)
+//@   safety on
+//@   requires h != nil
+//@   modifies nothing
+//@   ensures[fresh]        ret1 == nil ==> ret0 != nil && __fresh(ret0) && len(ret0.Body.Parents) == 2
+//@   ensures[creator-only] ret1 == nil ==> (forall k int :: 0 <= k && k < len(ret0.Body.BlockSignatures) ==> __seqeq(ret0.Body.BlockSignatures[k].Validator, ret0.Body.Creator))
+//@   ensures[payload]      ret1 == nil ==> __eq(ret0.Body.Transactions, wevent.Body.Transactions) && __eq(ret0.Body.InternalTransactions, wevent.Body.InternalTransactions) && ret0.Body.Index == wevent.Body.Index && ret0.Body.Timestamp == wevent.Body.Timestamp && ret0.Signature == wevent.Signature
+//@   ensures[sigs]         ret1 == nil ==> (wevent.Body.BlockSignatures == nil) == (ret0.Body.BlockSignatures == nil) && len(ret0.Body.BlockSignatures) == len(wevent.Body.BlockSignatures) && (forall k int :: 0 <= k && k < len(ret0.Body.BlockSignatures) ==> ret0.Body.BlockSignatures[k].Index == wevent.Body.BlockSignatures[k].Index && ret0.Body.BlockSignatures[k].Signature == wevent.Body.BlockSignatures[k].Signature)
